@@ -4,7 +4,7 @@
 From Coq Require Import NArith ZArith List Bool.
 Import ListNotations.
 Require Import UV.C07.Model UV.C07.Check UV.C07.Proofs UV.C07.Replay UV.C07.RecordReplay.
-Require UV.C07.RecordProof.
+Require UV.C07.RecordProof UV.C07.Range.
 Local Open Scope Z_scope.
 
 (* get_task_ustack's look-ahead list (time filter -t / time=, caller filter -C, `trace`) hands the
@@ -63,6 +63,28 @@ Theorem C07_matches_documented_replay : forall c f, plt_free_all c -> no_switch_
 Proof. exact replay_matches_select. Qed.
 Print Assumptions C07_matches_documented_replay.
 
+(* -r alone: report/graph/dump --chrome, replay, script and the raw dump show exactly the records whose
+   timestamp lies in [start, stop] (ends included), for every depth-consistent recording with non-decreasing
+   timestamps nested less deep than -D (in particular the recording of every call forest). *)
+Theorem C07_time_range_selects_window : forall c rs,
+  Range.range_only c -> Range.sorted rs -> dcons 0 rs -> Forall (fun r => r_depth r < gdepth c) rs ->
+  map ob_rt (run_std c rs) = map Range.shown_rec (filter (fun r => Range.in_window c (r_time r)) rs).
+Proof. exact Range.range_std_window. Qed.
+Print Assumptions C07_time_range_selects_window.
+
+Theorem C07_time_range_replay : forall c rs,
+  Range.range_only c -> Range.sorted rs -> dcons 0 rs -> Forall (fun r => r_depth r < gdepth c) rs ->
+  map ob_rt (run_rp c rs) = map Range.shown_rec (Range.window c rs)
+  /\ map ob_rt (run_script c rs) = map Range.shown_rec (Range.window c rs).
+Proof. exact Range.range_replay_script. Qed.
+Print Assumptions C07_time_range_replay.
+
+Theorem C07_time_range_raw_dump : forall c rs,
+  Range.range_only c -> Range.sorted rs -> dcons 0 rs -> Forall (fun r => r_depth r < gdepth c) rs ->
+  map ob_rt (run_raw c rs) = map Range.shown_rec (Range.window c rs).
+Proof. exact Range.range_raw. Qed.
+Print Assumptions C07_time_range_raw_dump.
+
 (* --no-libcall breaks the agreement: replay tests the symbol type before fstack_entry *)
 Theorem C07_no_libcall_commands_agree_refuted :
   map ob_n (run_rp c_plt (flats 0 f_plt))
@@ -79,19 +101,20 @@ Theorem C07_raw_dump_time_filter_refuted :
 Proof. exact raw_dump_ignores_time_filter. Qed.
 Print Assumptions C07_raw_dump_time_filter_refuted.
 
-(* record time = replay time, UNBOUNDED, for the filter options -F / -N / -D on the -pg shape: for every
-   forest (calls with t0 < t1 < 2^64, nesting <= 1024) libmcount (lazy ENTRY flush included) writes exactly
-   the recording of the selected forest, and replaying that without options shows the same calls, display
-   depths and times as replaying the full recording with the options. *)
+(* record time = replay time, UNBOUNDED, for the options -F / -N / -D / -t on the -pg shape: for every
+   forest whose calls take time, lie inside their caller's interval and do not run exactly the threshold
+   (nesting <= 1024) libmcount (lazy ENTRY flush, time filter on exit) writes exactly the recording of the
+   selected forest, and replaying that without options shows the same calls, display depths and times as
+   replaying the full recording with the options. *)
 Theorem C07_record_writes_selected_forest : forall c f,
-  RecordProof.filter_only c -> RecordProof.wf_forest f -> (RecordProof.fheight f <= 1024)%nat ->
+  RecordProof.filter_only c -> RecordProof.wf_forest c f -> (RecordProof.fheight f <= 1024)%nat ->
   record (to_mcfg c MC.PG) f = flats 0 (flat_map (RecordProof.sel c false 0) f).
 Proof. exact RecordProof.record_is_sel. Qed.
 Print Assumptions C07_record_writes_selected_forest.
 
 Theorem C07_record_equals_replay : forall c f,
   RecordProof.filter_only c -> plt_free_all c -> no_range c = true ->
-  RecordProof.wf_forest f -> (RecordProof.fheight f <= 1024)%nat ->
+  RecordProof.wf_forest c f -> (RecordProof.fheight f <= 1024)%nat ->
   map RecordProof.strip (rec_then_plain c MC.PG f) = map RecordProof.strip (plain_then_opt c f).
 Proof. exact RecordProof.record_equals_replay_filters. Qed.
 Print Assumptions C07_record_equals_replay.
